@@ -22,6 +22,7 @@ Section Proofs.
   Notation parsed_rows := (Model.parsed_rows parse_source).
   Notation supp_of := (Model.supp_of load_supp).
   Notation supp_entry := (Model.supp_entry load_supp).
+  Notation supp_warn := (Model.supp_warn load_supp).
   Notation run_up := (Model.run_up parse_source load_supp classify analyze group_views).
 
   Lemma loop_spec R m supp (ss : list source) :
@@ -49,7 +50,8 @@ Section Proofs.
 
   Definition all_txns (b : budget) : list Txn :=
     flat_map (contribution (b_rules b) (b_mode b) (supp_of (b_sources b))) (b_sources b).
-  Definition all_warnings (b : budget) : list warning := flat_map warn (b_sources b).
+  Definition all_warnings (b : budget) : list warning :=
+    flat_map supp_warn (b_sources b) ++ flat_map warn (b_sources b).
 
   (* run_up in closed form *)
   Lemma run_up_spec (b : budget) :
@@ -64,7 +66,7 @@ Section Proofs.
   Proof.
     unfold Model.run_up, all_txns, all_warnings. destruct (b_sources b) as [|s ss] eqn:Hss; [reflexivity|].
     rewrite loop_spec. cbn [app].
-    destruct (flat_map _ (s :: ss)); reflexivity.
+    destruct (flat_map (contribution _ _ _) (s :: ss)); reflexivity.
   Qed.
 
   Lemma report_txns_spec (b : budget) : report_txns (run_up b) = all_txns b.
@@ -260,9 +262,52 @@ Section Proofs.
       rewrite E0 in H. rewrite E'.
       match goal with H : match ?l with _ => _ end = _ |- _ => destruct l eqn:E end; [discriminate|].
       inversion H; subst. eexists. reflexivity.
-    - rewrite report_warnings_spec. unfold all_warnings. cbn [b_sources]. rewrite flat_map_app.
+    - rewrite report_warnings_spec. unfold all_warnings. cbn [b_sources]. apply in_or_app. right. rewrite flat_map_app.
       apply in_or_app. right. cbn [flat_map]. apply in_or_app. left.
       unfold Model.warn, set_state, Model.read_source. cbn. rewrite Hs.
       destruct Hst as [->|[-> Hg]]; [now left|]. rewrite Hg. now left.
+  Qed.
+
+  (* ---- a supplemental source whose file is missing / unreadable (after the fix of run.py): it is reported, and the
+          report is that of the budget without it (only rule outcomes that queried it can differ from before) ---- *)
+  Lemma supp_entry_not_present (s : source) st : st <> Present -> supp_entry (set_state s st) = [].
+  Proof.
+    intros H. unfold Model.supp_entry, set_state. cbn. destruct (s_supp s); [|reflexivity].
+    destruct (String.eqb (s_name s) ""); [reflexivity|]. destruct st; try reflexivity. now elim H.
+  Qed.
+
+  Lemma rows_of_set_state_supp (s : source) st : s_supp s = true -> rows_of (set_state s st) = [].
+  Proof. intros H. apply rows_of_supp. exact H. Qed.
+
+  Theorem missing_supplemental_reported :
+    forall R m v l1 (s : source) l2 st,
+      s_supp s = true -> st <> Present ->
+      let b' := mkBudget (l1 ++ set_state s st :: l2) R m v in
+      let b0 := mkBudget (l1 ++ l2) R m v in
+      In (SuppNotLoaded (s_name s)) (report_warnings (run_up b')) /\
+      parsed_rows (l1 ++ set_state s st :: l2) = parsed_rows (l1 ++ s :: l2) /\
+      report_txns (run_up b') = report_txns (run_up b0) /\
+      (forall t st' sec ws, run_up b0 = Report t st' sec ws -> exists ws', run_up b' = Report t st' sec ws').
+  Proof.
+    intros R m v l1 s l2 st Hs Hst. cbn zeta.
+    assert (Hsupp : supp_of (l1 ++ set_state s st :: l2) = supp_of (l1 ++ l2)).
+    { rewrite !supp_of_app. unfold Model.supp_of at 2. cbn [flat_map]. now rewrite (supp_entry_not_present s st Hst). }
+    assert (Hc : forall supp, contribution R m supp (set_state s st) = []).
+    { intros supp. apply contribution_supp. exact Hs. }
+    assert (E : all_txns (mkBudget (l1 ++ set_state s st :: l2) R m v) = all_txns (mkBudget (l1 ++ l2) R m v)).
+    { unfold all_txns. cbn [b_sources b_rules b_mode]. rewrite Hsupp, !flat_map_app. cbn [flat_map]. now rewrite Hc. }
+    repeat split.
+    - rewrite report_warnings_spec. unfold all_warnings. cbn [b_sources]. apply in_or_app. left.
+      rewrite flat_map_app. apply in_or_app. right. cbn [flat_map]. apply in_or_app. left.
+      unfold Model.supp_warn. rewrite set_state_supp, Hs, (supp_entry_not_present s st Hst). now left.
+    - unfold Model.parsed_rows. rewrite !flat_map_app. cbn [flat_map].
+      now rewrite (rows_of_set_state_supp s st Hs), (rows_of_supp s Hs).
+    - now rewrite !report_txns_spec.
+    - intros t st' sec ws H. rewrite run_up_spec in H. rewrite run_up_spec. cbn [b_sources b_views] in *.
+      destruct (l1 ++ l2) eqn:E12; [discriminate|]. rewrite <- E12 in *.
+      destruct (l1 ++ set_state s st :: l2) eqn:E1s; [now destruct l1|]. rewrite <- E1s in *.
+      rewrite E.
+      match goal with H : match ?l with _ => _ end = _ |- _ => destruct l eqn:E' end; [discriminate|].
+      inversion H; subst. eexists. reflexivity.
   Qed.
 End Proofs.
